@@ -76,7 +76,11 @@ def run(tasks, link, schedule="rr", rng=None, max_steps=200000,
             break
         act0 = link.activity
         if schedule == "random" and rng is not None:
-            order = [rng.choice(live) for _ in range(len(live))]
+            # every live task once per round, in random order, with random
+            # repetition (a task may take several steps in a row)
+            order = []
+            for t in rng.sample(live, len(live)):
+                order += [t] * rng.randint(1, 3)
         elif ahead is not None:
             # preferred task runs until it really blocks
             pref = tasks[ahead % len(tasks)]
